@@ -171,7 +171,7 @@ class Interp(object):
             def visit_Call(s2, n):
                 s2.generic_visit(n)
                 nm = n.func.id if isinstance(n.func, ast.Name) else (n.func.attr if isinstance(n.func, ast.Attribute) else None)
-                if nm in self.pure_calls:
+                if nm in self.pure_calls or isinstance(n.func, ast.Tuple):
                     return ast.copy_location(ast.Tuple(elts=list(n.args) + [k.value for k in n.keywords], ctx=ast.Load()), n)
                 return n
         return normal.is_pure(Drop().visit(normal.clone(e)))
